@@ -32,7 +32,7 @@ def c08(chk):
     chk.add_tlc(res, "C08-table")
     if res.error or res.violated or res.queue != 0:
         raise vp.Machinery("HttpMap.tla failed (%s):\n%s" % (res.violated, res.out[-3000:]))
-    v, st = engine.run(chk, "peng", {"mode": "c08", "sample": 300 if quick else 6000}, "http", "TraceH", {},
+    v, st = engine.run(chk, "peng", {"mode": "c08", "sample": 300 if quick else 40000}, "http", "TraceH", {},
                        ["NoStepViolation"], "peng-http", what="the real proxy", strip=(), timeout=3400)
     chk.notes["executed_calls_by_action"] = st.get("by_op")
     chk.nontrivial = st.get("distinct_outcomes", 0)
